@@ -17,6 +17,7 @@ type Program struct {
 	Prog    *ssa.Program
 	Pkgs    []*packages.Package
 	Main    *ssa.Package // astisub
+	CLI     *ssa.Package // the astisub command (package main in /repo/astisub), nil if absent
 	ByPath  map[string]*ssa.Package
 	Sizes   types.Sizes
 	RepoDir string
@@ -44,7 +45,11 @@ func loadProgram(repo string, harnessDir string) (*Program, error) {
 		Overlay: overlay,
 		Env:     append(os.Environ(), "GOFLAGS=-mod=mod", "GOPROXY=off", "GOSUMDB=off", "GOTOOLCHAIN=local"),
 	}
-	pkgs, err := packages.Load(cfg, ".")
+	patterns := []string{"."}
+	if st, err := os.Stat(filepath.Join(repo, "astisub", "main.go")); err == nil && !st.IsDir() {
+		patterns = append(patterns, "./astisub")
+	}
+	pkgs, err := packages.Load(cfg, patterns...)
 	if err != nil {
 		return nil, err
 	}
@@ -66,7 +71,20 @@ func loadProgram(repo string, harnessDir string) (*Program, error) {
 	if len(spkgs) == 0 || spkgs[0] == nil {
 		return nil, fmt.Errorf("no ssa package")
 	}
-	p.Main = spkgs[0]
+	for i, pk := range pkgs {
+		if spkgs[i] == nil {
+			continue
+		}
+		switch pk.PkgPath {
+		case "github.com/asticode/go-astisub":
+			p.Main = spkgs[i]
+		case "github.com/asticode/go-astisub/astisub":
+			p.CLI = spkgs[i]
+		}
+	}
+	if p.Main == nil {
+		p.Main = spkgs[0]
+	}
 	p.Sizes = types.SizesFor("gc", "amd64")
 	return p, nil
 }
